@@ -110,7 +110,7 @@ def slot_value(rng, schema, which, u):
     return GS.rloop(rng, u.lab, u.d, minlabel, True)
 
 
-def gen_setter_history(rng, schema, n_tracks=2, n_ops=30, big=False, first_id=None):
+def gen_setter_history(rng, schema, n_tracks=2, n_ops=30, big=False, first_id=None, no_perf_row=False):
     """Ops: create n tracks from rich snapshots, then n_ops single-field setter calls.
     Returns (ops, metas): metas[i] describes ops[i] (None for set-up ops)."""
     u = Uniq()
@@ -129,6 +129,12 @@ def gen_setter_history(rng, schema, n_tracks=2, n_ops=30, big=False, first_id=No
         metas.append({"kind": "create", "t": "t%d" % t})
     last_field = None
     rate_count_ok = {("t%d" % t): True for t in range(n_tracks)}
+    if no_perf_row and not is_v2(schema):
+        # the first track as Engine leaves a track it has imported but not analysed: no performance-data row at all
+        p0 = ops[-n_tracks]["snap"]["relative_path"]
+        ops.append({"op": "raw_exec", "sql": "DELETE FROM PerformanceData WHERE id = (SELECT id FROM Track WHERE path = ?)", "params": [{"t": p0}]})
+        metas.append(None)
+        rate_count_ok["t0"] = False
     for _ in range(n_ops):
         th = "t%d" % rng.randrange(n_tracks)
         # choose a field, biased toward storage-coupled pairs
@@ -144,7 +150,10 @@ def gen_setter_history(rng, schema, n_tracks=2, n_ops=30, big=False, first_id=No
             idx = rng.choice([0, 7, rng.randrange(8)])
             val = slot_value(rng, schema, which, u)
             ops.append({"op": "set_at", "t": th, "field": which, "index": idx, "value": val})
-            metas.append({"kind": "set_at", "t": th, "field": which, "index": idx, "value": val, "excusable": False})
+            # (a track without performance data has no cue / loop slots at all, as hot_cues() and loops() report: a slot
+            # setter may refuse there, changing nothing)
+            metas.append({"kind": "set_at", "t": th, "field": which, "index": idx, "value": val,
+                          "excusable": bool(no_perf_row and not is_v2(schema) and th == "t0")})
         else:
             val, exc = setter_value(rng, schema, field, u)
             if field in ("sample_rate", "sample_count") and (val is None or exc):
